@@ -9,6 +9,7 @@ CONSTANTS
   MVals = {}
   OVals = {}
   WithDelSpace = FALSE
+  WithChild = FALSE
   OpenFindings = {}
   MaxOps = 99
   Dump = TRUE
